@@ -20,7 +20,16 @@ Definition k_expr (e : expr) (stims : list (list Z)) : list Z :=
         rtl_drive (Sh 2 false) en e;
         eval_tb en e;
         denote en e ]) stims
-  else [0].
+  else [0; build_err e].      (* rejected at construction: the class of the exception (Derived.build_err) *)
+
+(* Array(elems)[index] observed as a proxy: [1; ArrayProxy.shape(); Value.cast(proxy).shape(); len(proxy)] then the rows of
+   k_expr for the converted value *)
+Definition k_array (elems : list expr) (index : expr) (stims : list (list Z)) : list Z :=
+  let e := mk_array_raw elems index in
+  if wf_expr index && forallb wf_expr elems then
+    let ps := array_proxy_shape elems in
+    1 :: width ps :: b2l (sgn ps) :: ewidth e :: tl (k_expr e stims)
+  else [0; build_err (ECat (elems ++ [index]))].
 
 (* Python builtins as read by the model: slice(start, stop, step).indices(len) and list(range(a, b, s)) *)
 Definition k_key_indices (len : Z) (k : pykey) : list Z :=
